@@ -1352,4 +1352,66 @@ theorem torus_bounded' (sq : K → K) (hsq : SqrtOK sq) (eps : K) (heps : 0 < ep
   rw [hp i]
   constructor <;> nlinarith [hui.1, hui.2, hvi.1, hvi.2]
 
+
+/-! ## `toolbox3d.Ramp` (bounds of the repaired code) -/
+
+/-- a convex combination `(1-t)²·a + t(1-t)·b + t·m` stays between the min and the max of `a, b, m` -/
+theorem ramp_convex (t a b m L U : K) (ht0 : 0 < t) (ht1 : t < 1) (hLa : L ≤ a) (hLb : L ≤ b) (hLm : L ≤ m)
+    (haU : a ≤ U) (hbU : b ≤ U) (hmU : m ≤ U) :
+    L ≤ (1 - t) * (1 - t) * a + t * (1 - t) * b + t * m ∧ (1 - t) * (1 - t) * a + t * (1 - t) * b + t * m ≤ U := by
+  have h1 : 0 ≤ (1 - t) * (1 - t) := mul_self_nonneg _
+  have h2 : 0 ≤ t * (1 - t) := mul_nonneg ht0.le (by linarith)
+  constructor
+  · nlinarith [mul_nonneg h1 (sub_nonneg.mpr hLa), mul_nonneg h2 (sub_nonneg.mpr hLb), mul_nonneg ht0.le (sub_nonneg.mpr hLm)]
+  · nlinarith [mul_nonneg h1 (sub_nonneg.mpr haU), mul_nonneg h2 (sub_nonneg.mpr hbU), mul_nonneg ht0.le (sub_nonneg.mpr hmU)]
+
+/-- **Ramp.**  Every point `Ramp.Contains` accepts (off the degenerate plane through `P1`, where the
+code divides by zero) is a convex combination of `P1`, `P2` and a point of the wrapped solid, hence
+lies in the hull box the repaired `Min()/Max()` report. -/
+theorem ramp_bounded' (s : Solid K) (hs : Bounded s) (h3 : s.d3 = true) (p1 p2 c : Pt K)
+    (hne : pdot (psub p2 p1) (psub c p1) ≠ 0) (hc : rampContains s p1 p2 c = true) :
+    InBox true (rampS s p1 p2).box c := by
+  intro i _
+  have hact : Active s.d3 i := h3 ▸ active_true i
+  simp only [rampS, pmin_get, pmax_get]
+  unfold rampContains at hc
+  simp only at hc
+  split_ifs at hc with h1 h2
+  · -- scale ≥ 1: the point itself is in the solid
+    have := hs c hc i hact
+    exact ⟨le_trans (le_trans (min_le_left _ _) (min_le_left _ _)) this.1,
+      le_trans this.2 (le_trans (le_max_left _ _) (le_max_left _ _))⟩
+  · set sc := pdot (psub p2 p1) (psub c p1) with hsc
+    set nn := (psub p2 p1) 0 * (psub p2 p1) 0 + (psub p2 p1) 1 * (psub p2 p1) 1 + (psub p2 p1) 2 * (psub p2 p1) 2 with hnn
+    have hsc0 : 0 < sc := lt_of_le_of_ne (not_lt.mp h1) (Ne.symm hne)
+    have hnn0 : 0 < nn := by
+      have h0 : 0 ≤ nn := by
+        rw [hnn]; nlinarith [mul_self_nonneg ((psub p2 p1) 0), mul_self_nonneg ((psub p2 p1) 1), mul_self_nonneg ((psub p2 p1) 2)]
+      rcases h0.lt_or_eq with h | h
+      · exact h
+      · exfalso
+        have e0 : (psub p2 p1) 0 = 0 := by
+          rw [hnn] at h; nlinarith [mul_self_nonneg ((psub p2 p1) 0), mul_self_nonneg ((psub p2 p1) 1), mul_self_nonneg ((psub p2 p1) 2)]
+        have e1 : (psub p2 p1) 1 = 0 := by
+          rw [hnn] at h; nlinarith [mul_self_nonneg ((psub p2 p1) 0), mul_self_nonneg ((psub p2 p1) 1), mul_self_nonneg ((psub p2 p1) 2)]
+        have e2 : (psub p2 p1) 2 = 0 := by
+          rw [hnn] at h; nlinarith [mul_self_nonneg ((psub p2 p1) 0), mul_self_nonneg ((psub p2 p1) 1), mul_self_nonneg ((psub p2 p1) 2)]
+        apply hne
+        simp only [pdot, e0, e1, e2]; ring
+    set t := sc / nn with ht
+    have ht0 : 0 < t := div_pos hsc0 hnn0
+    have ht1 : t < 1 := not_le.mp h2
+    have hm := hs _ hc i hact
+    simp only [padd_get, pscale_get, psub_get] at hm
+    have key : c i = (1 - t) * (1 - t) * p1 i + t * (1 - t) * p2 i +
+        t * ((c i - p1 i - (p2 i - p1 i) * t) * (1 / t) + (p2 i - p1 i) * t + p1 i) := by
+      field_simp; ring
+    have := ramp_convex t (p1 i) (p2 i) _ (min (min (s.box.lo i) (p1 i)) (p2 i)) (max (max (s.box.hi i) (p1 i)) (p2 i))
+      ht0 ht1 (le_trans (min_le_left _ _) (min_le_right _ _)) (min_le_right _ _)
+      (le_trans (le_trans (min_le_left _ _) (min_le_left _ _)) hm.1)
+      (le_trans (le_max_right _ _) (le_max_left _ _)) (le_max_right _ _)
+      (le_trans hm.2 (le_trans (le_max_left _ _) (le_max_left _ _)))
+    rw [← key] at this
+    exact this
+
 end M3d.Bd
